@@ -87,7 +87,8 @@ structure Sig where
   edges : List Rat
   deriving DecidableEq, Repr
 
-/-- `get_edge_lengths` (squared): the pairs of `edge_pairs` -/
+/-- `get_edge_lengths` (squared); `pairs` = the corner pairs it measures (generated table
+    `hexAspectPairs` / `quadAspectPairs`, read off the running code) -/
 def edgeLens (pairs : List (Nat × Nat)) (pts : List V3) : List Rat :=
   pairs.map (fun e => V3.norm2 (pt pts e.2 - pt pts e.1))
 
@@ -99,7 +100,7 @@ def sigHexWith (sides : List (List Nat)) (pairs : List (Nat × Nat)) (pts : List
   ⟨ss.flatMap (·.1), ss.flatMap (·.2), edgeLens pairs pts⟩
 
 def sigHex (pts : List V3) (nb : Nat → Option V3) : Sig :=
-  sigHexWith CBV.Gen.hexSideIdx CBV.Gen.hexEdgePairs pts nb
+  sigHexWith CBV.Gen.hexSideIdx CBV.Gen.hexAspectPairs pts nb
 
 def sigQuadWith (sides : List (List Nat)) (pairs : List (Nat × Nat)) (pts : List V3) (nb : Nat → Option V3) : Sig :=
   let centre := avg pts
@@ -107,7 +108,7 @@ def sigQuadWith (sides : List (List Nat)) (pairs : List (Nat × Nat)) (pts : Lis
   ⟨ss.map (·.1), ss.map (·.2), edgeLens pairs pts⟩
 
 def sigQuad (pts : List V3) (nb : Nat → Option V3) : Sig :=
-  sigQuadWith CBV.Gen.quadSideIdx CBV.Gen.quadEdgePairs pts nb
+  sigQuadWith CBV.Gen.quadSideIdx CBV.Gen.quadAspectPairs pts nb
 
 /-! ### scale-free normal form -/
 
@@ -207,14 +208,19 @@ def G0 (s : Sig0) : Float :=
   let aspect := qScale 3.0 2.5 3.0 (Float.log10 (Float.sqrt (ratToFloat s.aspect2)))
   nonortho + inner + aspect
 
-/-- `CellBase.quality` (`none` = `ValueError`) -/
+/-- `CellBase.quality` (`none` = `ValueError`); evaluated on the canonical (sorted) signature, so that
+    the value is a function of the *multisets* of entries -/
 def quality (quad : Bool) (s : Sig) : Option Float :=
-  if degenerate quad s then none else some (G quad vsmall s.canon)
+  let c := s.canon
+  if degenerate quad c then none else some (G quad vsmall c)
 
-def quality0 (quad : Bool) (s : Sig) : Option Float :=
-  if degenerate quad s || minL s.edges == 0 || s.tris.any (fun t => t.nn == 0) ||
-      s.corners.any (fun t => t.nn == 0 || t.cc == 0) then none
-  else some (G0 s.norm.canon)
+/-- the idealised value (guard = 0), a function of the canonical scale-free form alone -/
+def quality0 (s : Sig) : Float := G0 s.norm.canon
+
+/-- the idealised value is meaningful: no zero norm anywhere -/
+def idealDefined (quad : Bool) (s : Sig) : Bool :=
+  !(degenerate quad s || minL s.edges == 0 || s.tris.any (fun t => t.nn == 0) ||
+      s.corners.any (fun t => t.nn == 0 || t.cc == 0))
 
 /-- smallest distance of an arccos argument from ±1 (conditioning of the float evaluation;
     reported to the harness, which widens its tolerance when it is tiny) -/
@@ -229,8 +235,8 @@ def sigOfCell (g : C15.Grid) (p : List V3) (ci : Nat) : Sig :=
   let cell := g.cells.getD ci []
   let nbs := C15.cellNbrs g ci
   let nb := fun i => ((nbs.getD i none).map (fun cj => avg (cellPts p (g.cells.getD cj []))))
-  if g.kind.corners == 4 then sigQuadWith g.kind.sideIdx g.kind.edgePairs (cellPts p cell) nb
-  else sigHexWith g.kind.sideIdx g.kind.edgePairs (cellPts p cell) nb
+  if g.kind.corners == 4 then sigQuadWith g.kind.sideIdx CBV.Gen.quadAspectPairs (cellPts p cell) nb
+  else sigHexWith g.kind.sideIdx CBV.Gen.hexAspectPairs (cellPts p cell) nb
 
 /-! ### line protocol -/
 
@@ -253,7 +259,7 @@ def handleGrid (args : List String) : Option String :=
       let quad := kind.corners == 4
       let out := (List.range cells.length).map (fun ci =>
         let s := sigOfCell g p ci
-        showQ (quality0 quad s) (quality quad s) (cond s.norm))
+        showQ (if idealDefined quad s then some (quality0 s) else none) (quality quad s) (cond s.norm))
       some (" ".intercalate out)
   | _ => none
 
